@@ -25,6 +25,7 @@ import (
 	"encoding/hex"
 	"fmt"
 	"io"
+	"os"
 	"runtime"
 	"sort"
 	"strings"
@@ -93,6 +94,9 @@ func (c *collector) merge(a *acc) {
 		if c.perGroup[g] > maxPerGroup {
 			c.dropped++
 			continue
+		}
+		if os.Getenv("VERIF_C11_LISTSIGS") != "" {
+			fmt.Fprintf(os.Stderr, "c11 sig: %s\n", v.Signature())
 		}
 		c.run.Violate(v)
 	}
